@@ -202,6 +202,8 @@ fn run_trans(deep: bool) -> (String, Vec<trans::Failure>) {
 }
 
 fn main() {
+    // panics of the code under test are caught and reported by the checks; keep stderr quiet
+    std::panic::set_hook(Box::new(|_| {}));
     let args: Vec<String> = std::env::args().collect();
     let check = args.get(1).cloned().unwrap_or_default();
     let deep = args.iter().any(|a| a == "--deep");
@@ -223,7 +225,9 @@ fn main() {
         _ => { eprintln!("usage: bounded trans [--deep]"); std::process::exit(2); }
     };
     let harness_broken = fails.iter().any(|f| f.property == "harness");
-    let shown: Vec<String> = fails.iter().take(40).map(|f| format!("{{\"property\": {}, \"input\": {}, \"detail\": {}}}", json_str(f.property), json_str(&f.input), json_str(&f.detail))).collect();
+    // at most 25 failing inputs per property are printed (the count is complete)
+    let mut per: std::collections::BTreeMap<&str, usize> = std::collections::BTreeMap::new();
+    let shown: Vec<String> = fails.iter().filter(|f| { let n = per.entry(f.property).or_insert(0); *n += 1; *n <= 25 }).map(|f| format!("{{\"property\": {}, \"input\": {}, \"detail\": {}}}", json_str(f.property), json_str(&f.input), json_str(&f.detail))).collect();
     println!("{{\"check\": {}, \"deep\": {}, {}, \"failing_inputs\": {}, \"failures\": [{}]}}", json_str(&check), deep, stats, fails.len(), shown.join(", "));
     std::process::exit(if harness_broken { 2 } else if fails.is_empty() { 0 } else { 1 });
 }
